@@ -3,8 +3,8 @@
 Pipeline: TLC checks the implementation-shaped model ConnLifeNetMC (manager loop, connection task incl.
 its error exits, protocol loops over bounded channels, a protocol that shuts down) against the monitor of
 ConnLifeNet.tla; TLC simulation supplies stimulus schedules; the harness bin `connlife` runs those and a
-hand-written scenario catalogue on real two-node litep2p networks over loopback TCP (proxy in between,
-schedule-perturbing executor) and TLC validates every recorded execution against the monitor."""
+hand-written scenario catalogue on real two-node litep2p networks over loopback TCP, WebSocket (byte proxy
+in between) and QUIC (no proxy), under a schedule-perturbing executor, and TLC validates every recorded execution against the monitor."""
 import json
 import os
 import random
@@ -15,6 +15,11 @@ ASSUME = [
     "'recorded before the driver began ...' and deadlines: a report that is missing 10 s after every TCP stream between "
     "the nodes is gone counts as never made (typical latency is < 50 ms; scenarios whose scheduling-latency probe saw "
     "> 1.5 s are re-run, never judged)",
+    "tcp and ws run through the byte proxy (it tells when a stream is gone and which side ended it); quic runs without "
+    "proxy: a node is judged at quiescence only when the connection is certainly gone at the transport level (the other "
+    "node was killed, or reported closed without having closed by its own decision - a node that closes a QUIC "
+    "connection itself does not necessarily take the QUIC connection down); steps that need the proxy (cut, stall, "
+    "cut after N bytes, simultaneous dials) are not run on quic (listed in coverage.not_run_without_proxy)",
     "all dials are issued by the scenario driver (no discovery protocols), so 'no new connection' phases are known",
     "protocol channels hold 4096 events: really full channels are explored in the TLC model (capacity 1-2); on real "
     "nodes a protocol that stops polling its TransportService stands in for it",
@@ -66,10 +71,17 @@ def generate(ctx, n):
     return [json.loads(s) for s in keep], st
 
 
-def to_steps(stims):
-    steps, conns, cid, nconn = [], {}, 0, 0
-    for s in stims:
+def to_steps(stims, transport="tcp"):
+    """model stimuli -> driver steps.  An `open` of protocol q whose `drop` comes before its recorded outcome becomes
+    `open_exit` (the protocol requests a substream and shuts down at once); a failing outcome is provoked by stalling
+    the byte stream until the substream-open timeout (tcp / ws; without proxy the open simply succeeds)."""
+    steps, conns, cid, nconn, skip = [], {}, 0, 0, set()
+    proxy = transport != "quic"
+    end = [{"op": "cut"}] if proxy else [{"op": "force_close", "n": "B", "q": "q1"}]
+    for i, s in enumerate(stims):
         a = s["a"]
+        if i in skip or a == "outcome":
+            continue
         if a == "connect":
             cid += 1
             frm = "A" if nconn % 2 == 0 else "B"
@@ -79,13 +91,23 @@ def to_steps(stims):
         elif a == "connect2":
             conns[cid + 1], conns[cid + 2] = "ab", "ba"
             cid += 2
-            steps.append({"op": "connect2", "expect": True})
+            steps.append({"op": "connect2", "expect": True} if proxy else {"op": "connect", "from": "A", "expect": True})
         elif a == "cut":
-            steps.append({"op": "cut", "px": conns.get(s["c"], "both")})
+            steps += [{"op": "cut", "px": conns.get(s["c"], "both")}] if proxy else end
         elif a == "fc":
             steps += [{"op": "force_close", "n": "A", "q": s["q"]}, {"op": "sleep", "ms": 200}]
         elif a == "open":
-            steps.append({"op": "open", "n": "A", "q": s["q"]})
+            q = s["q"]
+            out = next((j for j in range(i + 1, len(stims)) if stims[j]["a"] == "outcome" and stims[j]["q"] == q and stims[j]["dir"] == "out"), None)
+            drp = next((j for j in range(i + 1, len(stims)) if stims[j]["a"] == "drop" and stims[j]["q"] == q), None)
+            if drp is not None and (out is None or drp < out):
+                skip.add(drp)
+                if out is not None and not stims[out]["ok"] and proxy:
+                    steps += [{"op": "stall"}, {"op": "open_exit", "n": "A", "q": q}, {"op": "sleep", "ms": 900}, {"op": "unstall"}, {"op": "sleep", "ms": 150}]
+                else:
+                    steps += [{"op": "open_exit", "n": "A", "q": q}, {"op": "sleep", "ms": 200}]
+            else:
+                steps.append({"op": "open", "n": "A", "q": q})
         elif a == "rsub":
             steps += [{"op": "open", "n": "B", "q": s["q"], "mode": "fire"}, {"op": "sleep", "ms": 200}]
         elif a == "drop":
@@ -93,12 +115,13 @@ def to_steps(stims):
         elif a == "proof":
             steps.append({"op": "open", "n": "B", "q": "q1"})
         elif a == "quiesce":
-            steps += [{"op": "cut"}, {"op": "quiesce"}]
+            steps += end + [{"op": "quiesce"}]
         elif a == "redial":
             steps.append({"op": "redial", "n": "A", "expect": True})
-    if not stims or stims[-1]["a"] not in ("quiesce", "redial"):
-        steps += [{"op": "cut"}, {"op": "quiesce"}, {"op": "redial", "n": "A", "expect": True}]
-    if stims and stims[-1]["a"] == "quiesce":
+    real = [s for s in stims if s["a"] != "outcome"]
+    if not real or real[-1]["a"] not in ("quiesce", "redial"):
+        steps += end + [{"op": "quiesce"}, {"op": "redial", "n": "A", "expect": True}]
+    if real and real[-1]["a"] == "quiesce":
         steps.append({"op": "redial", "n": "A", "expect": True})
     return steps
 
@@ -154,7 +177,37 @@ def catalogue(ctx):
     S.append(("drop-then-new-connection", Q3, Q3, [{"op": "drop_proto", "n": "A", "q": "q3"}, dict(cb, expect=True), sl(200), cut, qs]))
     S.append(("drop-then-new-connection-a", Q3, Q3, [{"op": "drop_proto", "n": "A", "q": "q3"}, dict(c, expect=True), sl(200), cut, qs]))
     S.append(("drop-cut-then-redial", Q3, Q3, [c, {"op": "drop_proto", "n": "A", "q": "q3"}, cut, qs, rd("A", expect=True), sl(200), cut, qs]))
+    # ... (c) the protocol itself requested a substream: outcome {negotiated, refused by the remote (it does not speak
+    # the protocol), timeout} x the protocol shuts down {before, after} the outcome; afterwards the connection must
+    # still be usable, its end must be reported and the peer must be dialable again
+    oe = {"op": "open_exit", "n": "A", "q": "q3"}
+    tail = [op("A", "q1"), op("B", "q2"), cut, qs, rd("A", expect=True), op("B", "q1"), cut, qs]
+    T5 = {"sub_timeout_ms": 500}
+    S.append(("open-exit-negotiated", Q3, Q3, [c, oe, sl(300)] + tail))
+    S.append(("open-exit-negotiated-b", Q3, Q3, [cb, oe, sl(300)] + tail))
+    S.append(("open-exit-refused", Q3, {}, [c, oe, sl(300)] + tail))
+    S.append(("open-exit-refused-b", Q3, {}, [cb, oe, sl(300)] + tail))
+    S.append(("open-exit-timeout", dict(Q3, **T5), dict(Q3, **T5), [c, {"op": "stall"}, oe, sl(900), {"op": "unstall"}, sl(150)] + tail))
+    S.append(("open-exit-timeout-b", dict(Q3, **T5), dict(Q3, **T5), [cb, {"op": "stall"}, oe, sl(900), {"op": "unstall"}, sl(150)] + tail))
+    S.append(("open-negotiated-then-exit", Q3, Q3, [c, op("A", "q3"), {"op": "drop_proto", "n": "A", "q": "q3"}] + tail))
+    S.append(("open-refused-then-exit", Q3, {}, [cb, op("A", "q3"), {"op": "drop_proto", "n": "A", "q": "q3"}] + tail))
+    S.append(("open-timeout-then-exit", dict(Q3, **T5), dict(Q3, **T5), [c, {"op": "stall"}, op("A", "q3", mode="fire"), sl(900), {"op": "unstall"}, sl(150), {"op": "drop_proto", "n": "A", "q": "q3"}] + tail))
     return S
+
+
+NEEDS_PROXY = ("stall", "unstall", "connect2")
+# catalogue subset run on ws / quic in the quick tier: connection termination + protocol shut-down
+SUBSET = ("cut-cycle", "kill-remote", "kill-on-est", "force-close", "keepalive", "drop-", "open-")
+
+
+def adapt(steps, transport):
+    """steps for a transport; None if the scenario needs the byte proxy (quic runs without one: the remote closes the
+    connection with force_close where tcp / ws cut the byte stream)"""
+    if transport != "quic":
+        return steps
+    if any(st["op"] in NEEDS_PROXY or "cut_at" in st or st.get("which") for st in steps):
+        return None
+    return [{"op": "force_close", "n": "B", "q": "q1"} if st["op"] == "cut" else st for st in steps]
 
 
 def cut_sweep(ctx, rnd):
@@ -168,22 +221,42 @@ def cut_sweep(ctx, rnd):
     return S
 
 
+TRANSPORTS = ("tcp", "ws", "quic")
+
+
 def scenarios(ctx, gen):
+    """tcp: the full catalogue, the cut sweep and every TLC schedule; ws / quic: in the quick tier the subset around
+    connection termination and protocol shut-down plus a sample of TLC schedules, in the thorough tier everything
+    that does not need the proxy (quic) / everything (ws)"""
     rnd = random.Random(ctx.seed)
-    out = []
-    reps = 3 if ctx.quick() else 8
-    for name, a, b, steps in catalogue(ctx):
-        for r in range(reps if "race" not in name else reps * (2 if ctx.quick() else 6)):
-            lvl = r % 4 if "race" not in name else 3
-            out.append({"name": name, "seed": rnd.randrange(1 << 30), "A": dict({"perturb": lvl}, **a), "B": dict({"perturb": (r // 2) % 3}, **b), "steps": steps})
-    for name, a, b, steps in cut_sweep(ctx, rnd):
-        for r in range(1 if ctx.quick() else 3):
-            out.append({"name": name, "seed": rnd.randrange(1 << 30), "A": {"perturb": 2 + r % 2}, "B": {"perturb": r % 3}, "steps": steps})
-    for i, st in enumerate(gen):
-        out.append({"name": "tlc-%d" % i, "seed": rnd.randrange(1 << 30), "A": {"q3": True, "perturb": i % 3}, "B": {"q3": True, "perturb": (i // 3) % 2},
-                    "steps": to_steps(st), "stims": st})
+    out, skipped = [], {}
+    for tr in TRANSPORTS:
+        full = tr == "tcp" or not ctx.quick()
+        reps = (3 if ctx.quick() else 8) if tr == "tcp" else (1 if ctx.quick() else 4)
+        for name, a, b, steps in catalogue(ctx):
+            if not full and not name.startswith(SUBSET):
+                continue
+            st = adapt(steps, tr)
+            if st is None:
+                skipped.setdefault(tr, []).append(name)
+                continue
+            race = "race" in name
+            for r in range(reps * ((2 if ctx.quick() else 6) if race else 1)):
+                lvl = 3 if race else r % 4
+                out.append({"name": name, "transport": tr, "seed": rnd.randrange(1 << 30), "A": dict({"perturb": lvl}, **a),
+                            "B": dict({"perturb": (r // 2) % 3}, **b), "steps": st})
+        if tr != "quic" and full:
+            for name, a, b, steps in cut_sweep(ctx, rnd):
+                for r in range(1 if ctx.quick() else (3 if tr == "tcp" else 1)):
+                    out.append({"name": name, "transport": tr, "seed": rnd.randrange(1 << 30), "A": {"perturb": 2 + r % 2}, "B": {"perturb": r % 3}, "steps": steps})
+        elif tr == "quic":
+            skipped.setdefault(tr, []).append("cut-at-*")
+        pick = list(enumerate(gen)) if full else rnd.sample(list(enumerate(gen)), min(len(gen), 20))
+        for i, st in pick:
+            out.append({"name": "tlc-%d" % i, "transport": tr, "seed": rnd.randrange(1 << 30), "A": {"q3": True, "perturb": i % 3, "sub_timeout_ms": 500},
+                        "B": {"q3": True, "perturb": (i // 3) % 2, "sub_timeout_ms": 500}, "steps": to_steps(st, tr), "stims": st})
     rnd.shuffle(out)
-    return out
+    return out, skipped
 
 
 def classify(seg, idx, reason):
@@ -204,11 +277,22 @@ def classify(seg, idx, reason):
     self_closed = any(e["e"] == "px_dead" and e.get("why") == my_side for e in evs[last_est:])
     remote_fired = any(e["e"] == "fire" and e.get("n") != n and e.get("ret") == "ok" for e in evs[last_est:])
     ka_race = self_closed and remote_fired and not dropped
+    tr = json.loads(seg[0]).get("transport", "tcp")
+    sig = _classify(evs, seg, idx, reason, bad, n, mine, dropped, fired_for_dropped, ka_race or (tr == "quic" and remote_fired and not dropped and "keepalive-race" in evs[0].get("sc", "")))
+    return sig if tr == "tcp" else "%s@%s" % (sig, tr)
+
+
+def _classify(evs, seg, idx, reason, bad, n, mine, dropped, fired_for_dropped, ka_race):
+    # the protocol that shut down had requested a substream itself (its outcome arrives when the protocol is gone)
+    own_open = any(e["e"] == "open_exit" and e.get("n") == n and e.get("ret") == "ok" for e in evs) or any(
+        e["e"] == "fire" and e.get("n") == n and e.get("ret") == "ok" and any(d["q"] == e.get("q") and evs.index(d) > evs.index(e) for d in dropped) for e in evs)
     if reason in SILENT or reason == "peer cannot be dialed again after the connection closed":
         # which connection was never reported: was a new connection attempted after a drop (accept rollback leaves
         # the protocols that were already told with a connection that never closes)?
         if dropped and fired_for_dropped:
             return "substream-for-dropped-protocol-exits-silently"
+        if dropped and own_open:
+            return "open-outcome-for-dropped-protocol-exits-silently"
         if dropped:
             est_after = any(e["e"] in ("p_est",) and evs.index(e) > evs.index(dropped[0]) for e in mine)
             return "new-connection-after-protocol-drop-rolled-back" if est_after else "silent-after-protocol-drop"
@@ -238,7 +322,7 @@ def check(ctx):
     gen, gstats = generate(ctx, 40 if ctx.quick() else 400)
     log("GEN %s" % {k: gstats[k] for k in gstats if k != "out"})
     build_s = cargo_build(ctx, ["connlife"])
-    scs = scenarios(ctx, gen)
+    scs, skipped = scenarios(ctx, gen)
     summ, lines = run_net(ctx, scs)
     log("HARNESS: %s (build %ss)" % ({k: summ[k] for k in summ if k != "event_kinds"}, build_s))
     if summ["scenarios_judged"] < 0.8 * len(scs):
@@ -254,14 +338,20 @@ def check(ctx):
                            "replay_obj": {"property": "C07", "reason": r.reason, "signature": sig,
                                           "scenario": next((s for s in scs if s["name"] == json.loads(seg[0]).get("sc") and s["seed"] == json.loads(seg[0]).get("seed")), None),
                                           "segment": [json.loads(x) for x in seg]}})
-    return conclude(ctx, "model_checking", evidence(mc, gstats, summ, scs, lines, nseg, nev), violations, ASSUME)
+    cov = evidence(mc, gstats, summ, scs, lines, nseg, nev)
+    cov["not_run_without_proxy"] = skipped
+    return conclude(ctx, "model_checking", cov, violations, ASSUME)
 
 
 def evidence(mc, gstats, summ, scs, lines, nseg, nev):
-    fam, shapes, causes = {}, set(), {}
+    fam, shapes, causes, bytr = {}, set(), {}, {}
     segs = split_segments(lines, lambda ln: '"e":"reset"' in ln)
     for s in segs:
         name = json.loads(s[0])["sc"]
+        tr = json.loads(s[0]).get("transport", "tcp")
+        bytr.setdefault(tr, {"executions_validated": 0, "events_validated": 0})
+        bytr[tr]["executions_validated"] += 1
+        bytr[tr]["events_validated"] += len(s) - 1
         f = name.split("-at-")[0] if name.startswith("cut-at") else ("tlc" if name.startswith("tlc-") else name)
         fam[f] = fam.get(f, 0) + 1
         evs = [json.loads(x) for x in s[1:]]
@@ -270,7 +360,7 @@ def evidence(mc, gstats, summ, scs, lines, nseg, nev):
         for e in evs:
             if e["e"] in ("app_est", "app_closed", "p_est", "p_closed", "p_exit", "quiesce", "redial", "proof_ok", "kill", "cut_begin", "fc_begin"):
                 per.setdefault(e.get("o", e.get("n", "drv")), []).append(e["e"])
-        shapes.add(json.dumps(per, sort_keys=True))
+        shapes.add(tr + json.dumps(per, sort_keys=True))
         for e in evs:
             if e["e"] in ("cut_begin", "kill", "fc_begin", "drop_begin", "stall", "pause"):
                 causes[e["e"]] = causes.get(e["e"], 0) + 1
@@ -281,9 +371,9 @@ def evidence(mc, gstats, summ, scs, lines, nseg, nev):
         samples.append([json.loads(x) for x in s[:25]])
     return {
         "states": sum(m["distinct"] for m in mc), "transitions": sum(m["transitions"] for m in mc),
-        "traces_validated_against_impl": nseg, "events_validated": nev, "samples": samples,
+        "traces_validated_against_impl": nseg, "events_validated": nev, "samples": samples, "by_transport": bytr,
         "evaluations": nseg, "distinct_nontrivial": len(shapes),
-        "rule": "a case is one scenario executed on a fresh pair of real litep2p nodes over loopback TCP (hand-written family x "
+        "rule": "a case is one scenario executed on a fresh pair of real litep2p nodes over loopback (transport tcp, ws or quic; hand-written family x "
                 "seed x perturbation level, proxy cut points, or a stimulus schedule produced by TLC simulation of ConnLifeNetMC); "
                 "distinct = distinct per-observer event-order shapes (which observer saw which events in which order, plus "
                 "the injected causes); every case contains at least one connection end",
@@ -320,8 +410,10 @@ def selftest(ctx):
     small = dict(BASE, Q={"q1"}, MaxCid=2, MaxStim=4)
     for name, consts, inv, expect in [
         # the unrepaired code paths (the original tree) must break the monitor in the model
-        ("unrepaired-error-exit", dict(small, Fixed="<- OnlyMapFix"), "MonStrict QuiesceStrict", "Strict"),
-        ("unrepaired-protocol-map", dict(small, Fixed="<- OnlyExitFix"), "MonStrict QuiesceStrict", "MonStrict"),
+        ("unrepaired-no-permit-exit", dict(small, Fixed="<- AllButPermit"), "MonStrict QuiesceStrict", "Strict"),
+        ("unrepaired-opened-report-to-dead-protocol", dict(small, Fixed="<- AllButOpened"), "MonStrict QuiesceStrict", "Strict"),
+        ("unrepaired-open-failure-report-to-dead-protocol", dict(small, Fixed="<- AllButOpenFailure"), "MonStrict QuiesceStrict", "Strict"),
+        ("unrepaired-protocol-map", dict(small, Fixed="<- AllButMap"), "MonStrict QuiesceStrict", "MonStrict"),
         ("unrepaired-defect-paths-tagged", dict(small, Fixed=NOFIX), "", "NoKf"),
         ("mgr-first", dict(small, Mutant="mgr-first"), "", "ProtocolsBeforeManager"),
         ("stop-on-proto-error", dict(small, Mutant="stop-on-proto-error"), "", "QuiesceOK"),
@@ -337,7 +429,7 @@ def selftest(ctx):
     # (a) binding: corrupt good recorded executions
     cargo_build(ctx, ["connlife"])
     cat = {n: (a, b, s) for n, a, b, s in catalogue(ctx)}
-    scs = [{"name": n, "seed": 7 + i, "A": cat[n][0], "B": cat[n][1], "steps": cat[n][2]} for i, n in enumerate(["cut-cycle", "sim-cut-one", "force-close"])]
+    scs = [{"name": n, "transport": "tcp", "seed": 7 + i, "A": cat[n][0], "B": cat[n][1], "steps": cat[n][2]} for i, n in enumerate(["cut-cycle", "sim-cut-one", "force-close"])]
     summ, lines = run_net(ctx, scs, tag="st")
     _, _, rej = validate_all(ctx, "ConnLifeNetTrace.tla", "ConnLifeNetTrace.cfg", lines)
     log("selftest baseline: %d segments, %d rejected" % (summ["scenarios_judged"], len(rej)))
